@@ -388,6 +388,153 @@ func caseCLEAR() {
 	println("CLEAR", bad)
 }
 
+// ---- unhashable dynamic keys on nil / empty / emptied / cleared maps: lookup, comma-ok lookup and
+// delete must panic as they do on non-empty maps (maptype flag HashMightPanic), for key types that
+// reach an interface through arrays and struct fields
+type ArrAny [2]any
+
+func try(f func()) (r string) {
+	defer func() {
+		if recover() != nil {
+			r = "P"
+		}
+	}()
+	f()
+	return "-"
+}
+
+func caseUNHA() {
+	type K = [2]any
+	bad, good := K{0: 1, 1: []int{1}}, K{0: 1, 1: 2}
+	states := []func() map[K]int{
+		func() map[K]int { return nil },
+		func() map[K]int { return make(map[K]int) },
+		func() map[K]int { m := map[K]int{}; m[good] = 1; delete(m, good); return m },
+		func() map[K]int { m := map[K]int{}; m[good] = 1; clear(m); return m },
+		func() map[K]int { m := map[K]int{}; m[good] = 1; return m },
+	}
+	out := ""
+	for _, mk := range states {
+		m := mk()
+		out += try(func() { _ = m[bad] })
+		out += try(func() { _, _ = m[bad] })
+		out += try(func() { delete(m, bad) })
+		out += try(func() { _ = m[good] })
+		out += " "
+	}
+	println("UNHA", out)
+}
+
+func caseUNHD() {
+	type K = ArrAny
+	bad, good := K{0: []int{1}, 1: 1}, K{0: 1, 1: 2}
+	states := []func() map[K]int{
+		func() map[K]int { return nil },
+		func() map[K]int { return make(map[K]int) },
+		func() map[K]int { m := map[K]int{}; m[good] = 1; delete(m, good); return m },
+		func() map[K]int { m := map[K]int{}; m[good] = 1; clear(m); return m },
+		func() map[K]int { m := map[K]int{}; m[good] = 1; return m },
+	}
+	out := ""
+	for _, mk := range states {
+		m := mk()
+		out += try(func() { _ = m[bad] })
+		out += try(func() { _, _ = m[bad] })
+		out += try(func() { delete(m, bad) })
+		out += try(func() { _ = m[good] })
+		out += " "
+	}
+	println("UNHD", out)
+}
+
+func caseUNHS() {
+	type K = struct{ a int; f [1]any }
+	bad, good := K{a: 1, f: [1]any{[]int{1}}}, K{a: 1, f: [1]any{2}}
+	states := []func() map[K]int{
+		func() map[K]int { return nil },
+		func() map[K]int { return make(map[K]int) },
+		func() map[K]int { m := map[K]int{}; m[good] = 1; delete(m, good); return m },
+		func() map[K]int { m := map[K]int{}; m[good] = 1; clear(m); return m },
+		func() map[K]int { m := map[K]int{}; m[good] = 1; return m },
+	}
+	out := ""
+	for _, mk := range states {
+		m := mk()
+		out += try(func() { _ = m[bad] })
+		out += try(func() { _, _ = m[bad] })
+		out += try(func() { delete(m, bad) })
+		out += try(func() { _ = m[good] })
+		out += " "
+	}
+	println("UNHS", out)
+}
+
+func caseUNHN() {
+	type K = [2][1]any
+	bad, good := K{0: [1]any{1}, 1: [1]any{[]int{1}}}, K{0: [1]any{1}, 1: [1]any{2}}
+	states := []func() map[K]int{
+		func() map[K]int { return nil },
+		func() map[K]int { return make(map[K]int) },
+		func() map[K]int { m := map[K]int{}; m[good] = 1; delete(m, good); return m },
+		func() map[K]int { m := map[K]int{}; m[good] = 1; clear(m); return m },
+		func() map[K]int { m := map[K]int{}; m[good] = 1; return m },
+	}
+	out := ""
+	for _, mk := range states {
+		m := mk()
+		out += try(func() { _ = m[bad] })
+		out += try(func() { _, _ = m[bad] })
+		out += try(func() { delete(m, bad) })
+		out += try(func() { _ = m[good] })
+		out += " "
+	}
+	println("UNHN", out)
+}
+
+func caseUNHV() {
+	type K = [1]struct{ v any }
+	bad, good := K{0: struct{ v any }{[]int{1}}}, K{0: struct{ v any }{2}}
+	states := []func() map[K]int{
+		func() map[K]int { return nil },
+		func() map[K]int { return make(map[K]int) },
+		func() map[K]int { m := map[K]int{}; m[good] = 1; delete(m, good); return m },
+		func() map[K]int { m := map[K]int{}; m[good] = 1; clear(m); return m },
+		func() map[K]int { m := map[K]int{}; m[good] = 1; return m },
+	}
+	out := ""
+	for _, mk := range states {
+		m := mk()
+		out += try(func() { _ = m[bad] })
+		out += try(func() { _, _ = m[bad] })
+		out += try(func() { delete(m, bad) })
+		out += try(func() { _ = m[good] })
+		out += " "
+	}
+	println("UNHV", out)
+}
+
+func caseUNHI() {
+	type K = any
+	bad, good := K([]int{1}), K(2)
+	states := []func() map[K]int{
+		func() map[K]int { return nil },
+		func() map[K]int { return make(map[K]int) },
+		func() map[K]int { m := map[K]int{}; m[good] = 1; delete(m, good); return m },
+		func() map[K]int { m := map[K]int{}; m[good] = 1; clear(m); return m },
+		func() map[K]int { m := map[K]int{}; m[good] = 1; return m },
+	}
+	out := ""
+	for _, mk := range states {
+		m := mk()
+		out += try(func() { _ = m[bad] })
+		out += try(func() { _, _ = m[bad] })
+		out += try(func() { delete(m, bad) })
+		out += try(func() { _ = m[good] })
+		out += " "
+	}
+	println("UNHI", out)
+}
+
 func main() {
 	name := ""
 	if a := argv(); len(a) > 1 {
@@ -422,6 +569,18 @@ func main() {
 		caseK300()
 	case "CLEAR":
 		caseCLEAR()
+	case "UNHA":
+		caseUNHA()
+	case "UNHD":
+		caseUNHD()
+	case "UNHS":
+		caseUNHS()
+	case "UNHN":
+		caseUNHN()
+	case "UNHV":
+		caseUNHV()
+	case "UNHI":
+		caseUNHI()
 	default:
 		println("unknown case", name)
 	}
